@@ -143,7 +143,10 @@ def main(tier, seed, repo, replay_file):
         def one(i):
             thr = [16, 8, 32, 2][i % 4]; mode = ["both", "same", "mixed", "stagger", "stagger"][i % 5]
             e = dict(os.environ, TSAN_OPTIONS="halt_on_error=0 exitcode=66 report_signal_unsafe=0")
-            r = subprocess.run([exe, str(thr), mode, str(seed * 100000 + i)], stdout=subprocess.PIPE, stderr=subprocess.PIPE, text=True, env=e)
+            # one process in eight runs with the delay failpoint: the constructors of the lazily initialised tables sleep 30 ms, i.e. the
+            # thread that builds a table stalls between claiming the slot and publishing it while the others arrive
+            extra = ["full", "delay=30"] if i % 8 == 5 else []
+            r = subprocess.run([exe, str(thr), mode, str(seed * 100000 + i)] + extra, stdout=subprocess.PIPE, stderr=subprocess.PIPE, text=True, env=e)
             return i, thr, mode, r.returncode, r.stdout, r.stderr
         seen_pairs = set()
         with ThreadPoolExecutor(max_workers=8) as ex:
@@ -166,7 +169,8 @@ def main(tier, seed, repo, replay_file):
     else:
         def one_n(i):
             thr = [16, 32, 8, 64][i % 4]; mode = ["both", "same", "mixed", "stagger", "stagger"][i % 5]
-            r = subprocess.run([exe, str(thr), mode, str(seed * 100000 + i)], stdout=subprocess.PIPE, stderr=subprocess.PIPE, text=True)
+            extra = ["full", "delay=" + str([30, 60, 5][i % 3])] if i % 8 == 5 else []
+            r = subprocess.run([exe, str(thr), mode, str(seed * 100000 + i)] + extra, stdout=subprocess.PIPE, stderr=subprocess.PIPE, text=True)
             return i, thr, mode, r.returncode, r.stdout, r.stderr
         with ThreadPoolExecutor(max_workers=8) as ex:
             for i, thr, mode, rc, out, err in ex.map(one_n, range(n_native)):
